@@ -28,9 +28,12 @@ git checkout -q -- . ; git clean -fdq -e _out
 # 2. run checks against /repo with the change applied
 cd /repo && git apply $md/patch.diff || { echo "cannot apply to /repo"; exit 4; }
 cd /verif
+rm -rf /verif/.work/evidence.keep && mkdir -p /verif/.work && cp -r /verif/evidence /verif/.work/evidence.keep
 for p in "$@"; do
   echo "## check $p"
   ./check $p --tier ${TIER:-quick} 2>&1 | grep -E "^(OK|VIOLATION|KNOWN|no longer|failing)" | cut -c1-400
 done
 git -C /repo checkout -- . 
 git -C /repo status --short | head -3
+# evidence files must describe the unchanged tree: restore them
+rm -rf /verif/evidence && mv /verif/.work/evidence.keep /verif/evidence
